@@ -102,16 +102,30 @@ class G:
                 new.insert(rng.randint(0, len(new)), r)
             elif k < 0.36 and others:      # remove
                 new.pop(rng.choice(others))
-            elif k < 0.52 and others:      # modify
+            elif k < 0.52 and others:      # modify one field (value from the field's own domain, so that it matters)
                 i = rng.choice(others)
-                if mod == "flow" and new[i][3] == 0:
-                    new[i][4] += 1
-                elif mod == "hot":
-                    f = rng.choice([5, 6, 7, 8, 12])
-                    new[i][f] = rng.choice([1, 2, 3, new[i][f] + 1])
+                r = new[i]
+                if mod == "cb":
+                    dom = {3: [1, 500, 1000, 3000, 60000], 4: [0, 1, 2, 5], 5: [1000, 2000, 10000], 6: [0, 1, 2, 10], 9: [0, 1, 2, 3],
+                           8: ([1, 2, 3, 5] if r[2] == 2 else [0, 1])}
+                    if r[2] == 0:
+                        dom[7] = [0, 5, 50]
+                elif mod == "flow":
+                    dom = {4: [1, 2, 3, 5, 10, 100], 10: [0, 500, 1000, 2000, 3000]}
+                    if r[3] == 1:
+                        dom[7] = [0, 100, 500, 2000]
+                    if r[2] == 1:
+                        dom[8], dom[9] = [1, 2, 5, 10], [0, 2, 3, 5]
+                    if r[3] == 0 and r[2] == 0 and r[4] >= BIG:
+                        dom = {4: [BIG, BIG + 1, BIG + 5]}
                 else:
-                    f = rng.choice([3, 4, 7, THR[mod], 9] if mod == "cb" else [THR[mod], 7, 10])
-                    new[i][f] = rng.choice([1, 2, 3, 1000, 2000, new[i][f] + 1])
+                    dom = {5: [0, 1, 2, 3, 5], 8: [1, 2, 10], 9: [0, 100]}
+                    dom[6 if r[3] == 1 else 7] = [0, 100, 2000] if r[3] == 1 else [0, 1, 3]
+                    if r[10] == 2:
+                        dom[12] = [0, 1, 4]
+                f = rng.choice(sorted(dom))
+                vals = [v for v in dom[f] if v != r[f]]
+                r[f] = rng.choice(vals)
             elif k < 0.62 and new:         # duplicate a rule (next to it or at the end)
                 i = rng.randrange(len(new))
                 new.insert(rng.choice([i, i + 1, len(new)]), list(new[i]))
